@@ -33,7 +33,8 @@ class Calls:
     SPEC_BUILTINS = {'forall', 'exists', 'forall_val', 'exists_val', 'implies', 'acc', 'out', 'err', 'ser', 'expected_of',
                      'is_none', 'hashable', 'callraises', 'call', 'fresh_obj', 'is_int_key', 'int_key', 'ite', 'attr',
                      'has_attr', 'catches', 'exc_is', 'iff', 'dynattr', 'truthy', 'key_at', 'idx_of', 'old', 'is_fresh',
-                     'seq_of', 'card', 'same_elements', 'typeof', 'callv', 'callvraises', 'isinst_dyn', 'lt', 'unhashable_any'}
+                     'seq_of', 'card', 'same_elements', 'typeof', 'callv', 'callvraises', 'isinst_dyn', 'lt', 'unhashable_any',
+                     'mhas', 'mget', 'shas', 'without_key', 're_compile_raises', 're_compile', 'as_map', 'as_seq', 'as_set', 'sat', 'slen', 'mlen', 'methraises', 'methcall', 'gen_of'}
 
     # ------------------------------------------------------------------------------------
     def ev_Call(self, node, st):
@@ -49,6 +50,8 @@ class Calls:
             # spec quantifiers take lambdas unevaluated
             if isinstance(f, VBuiltin) and f.name in ('spec.forall', 'spec.exists', 'spec.forall_val', 'spec.exists_val'):
                 return self.spec_quant(f.name[5:], node, s)
+            if isinstance(f, VBuiltin) and f.name == 'spec.gen_of':
+                return self.spec_gen_of(node, s)
             if isinstance(f, VBuiltin) and f.name in ('spec.implies', 'spec.ite'):
                 return self.spec_lazy(f.name[5:], node, s)
 
@@ -139,11 +142,20 @@ class Calls:
         res = th.fn(f'call_{n}{suffix}', *sig, th.Val)(*a)
         rk = self.shape_of(self.src(node.func) + '()') if node is not None else None
         resv = VVal(res, fresh=False, kind=rk)
-        if self.spec_mode or self.is_total_callable(f, node):
+        total = self.is_total_callable(f, node)
+        if self.spec_mode:
             return [(resv, st)]
         cr = th.fn(f'craises_{n}{suffix}', *sig, th.B)(*a)
         ec = th.fn(f'cexc_{n}{suffix}', *sig, th.Exc)(*a)
         ev = th.fn(f'cexcv_{n}{suffix}', *sig, th.Val)(*a)
+        origin = f'call:{self.src(node.func) if node is not None else "?"}'
+
+        def finish(s2):
+            if total:
+                return [(resv, s2)]
+            s_ok = s2.fork().add(z3.Not(cr))
+            s_ex = s2.fork().add(cr, ec != th.exc['BaseException'])
+            return [(resv, s_ok), (Raised(VExc(ec, ev, origin)), s_ex)]
         # lazily produced arguments (generators) may raise while the callee consumes them
         gens = [x for x in args if isinstance(x, VGen)]
         if gens:
@@ -154,14 +166,9 @@ class Calls:
                 if isinstance(r, Raised):
                     res_list.append((r, s2))
                 else:
-                    s_ok = s2.fork().add(z3.Not(cr))
-                    s_ex = s2.fork().add(cr, ec != th.exc['BaseException'])
-                    res_list.append((resv, s_ok))
-                    res_list.append((Raised(VExc(ec, ev, f'call:{self.src(node.func) if node is not None else "?"}')), s_ex))
+                    res_list.extend(finish(s2))
             return res_list
-        s_ok = st.fork().add(z3.Not(cr))
-        s_ex = st.fork().add(cr, ec != th.exc['BaseException'])
-        return [(resv, s_ok), (Raised(VExc(ec, ev, f'call:{self.src(node.func) if node is not None else "?"}')), s_ex)]
+        return finish(st)
 
     # -- IConv ---------------------------------------------------------------------------------
     def call_iconv(self, meth: str, recv: VVal, args, kwargs, st, node):
@@ -369,9 +376,13 @@ class Calls:
         saved = (self.cur_module, self.spec_mode, self.cur_class)
         self.cur_module, self.spec_mode = '$spec', True
         try:
-            s = State(e, st.pc, st.notes)
+            n0 = len(st.pc)
+            s = State(e, list(st.pc), st.notes)
             r, s2 = self.ev1(lam.body, s)
-            return self.truth(r, s2)
+            res = self.truth(r, s2)
+            for f in s2.pc[n0:]:
+                st.pc.append(f)
+            return res
         finally:
             self.cur_module, self.spec_mode, self.cur_class = saved
 
@@ -391,12 +402,15 @@ class Calls:
             body_state = State(env, [], [])
             r, s2 = self.ev1(lam.body, body_state)
             body = self.truth(r, s2)
-            facts = z3.And(s2.pc) if s2.pc else z3.BoolVal(True)
             rngc = z3.And(j >= lo, j < hi)
+            # definitional facts about terms built from the bound variable hold for every j: they are
+            # asserted once, outside, so the quantified formula means the same in hypothesis and goal position
+            if s2.pc:
+                st.add(z3.ForAll([j], z3.And(s2.pc)))
             if which == 'forall':
-                q = z3.ForAll([j], z3.Implies(rngc, z3.Implies(facts, body)))
+                q = z3.ForAll([j], z3.Implies(rngc, body))
             else:
-                q = z3.Exists([j], z3.And(rngc, facts, body))
+                q = z3.Exists([j], z3.And(rngc, body))
             return [(VBool(q), st)]
         lam = node.args[0]
         ks = [th.fresh(a.arg, th.Val) for a in lam.args.args]
@@ -406,12 +420,29 @@ class Calls:
         body_state = State(env, [], [])
         r, s2 = self.ev1(lam.body, body_state)
         body = self.truth(r, s2)
-        facts = z3.And(s2.pc) if s2.pc else z3.BoolVal(True)
+        if s2.pc:
+            st.add(z3.ForAll(ks, z3.And(s2.pc)))
         if which == 'forall_val':
-            q = z3.ForAll(ks, z3.Implies(facts, body))
+            q = z3.ForAll(ks, body)
         else:
-            q = z3.Exists(ks, z3.And(facts, body))
+            q = z3.Exists(ks, body)
         return [(VBool(q), st)]
+
+    def spec_gen_of(self, node, st):
+        """gen_of(n, lambda i: elem): the abstract one-shot iterable yielding elem(0..n-1) (canonical form)."""
+        th = self.th
+        nsv, _ = self.ev1(node.args[0], st)
+        n = self.toInt(nsv, st)
+        lam = node.args[1]
+        i = th.fresh(lam.args.args[0].arg, th.I)
+        env = dict(st.env)
+        env[lam.args.args[0].arg] = VInt(i)
+        r, s2 = self.ev1(lam.body, State(env, [], []))
+        rv = self.toVal(r, s2)
+        if s2.pc:
+            st.add(z3.ForAll([i], z3.And(s2.pc)))
+        arr = z3.Lambda([i], z3.If(z3.And(i >= 0, i < n), rv, th.dflt))
+        return [(VVal(th.mk_gen(arr, n), kind='gen'), st)]
 
     def spec_lazy(self, which, node, st):
         vals = []
@@ -539,6 +570,9 @@ class Calls:
                 out.append((VTuple(tuple(acc), True), s))
         return out
 
+    def all_hashable(self, term) -> bool:
+        return term in self.hashable_terms or (z3.is_app(term) and term.decl().name() == 'm_key')
+
     def gen_at(self, g: VGen, term, k):
         return z3.substitute(term, (g.idx, k))
 
@@ -615,9 +649,18 @@ class Calls:
                 return [(VVal(t, fresh=True, kind='seq'), s)]
             kk = z3.Const('k!m', th.Val)
             keep = gg.keep if gg.keep is not None else z3.BoolVal(True)
+            keyterm = gg.val if target == 'set' else gg.val[0]
+            if not self.spec_mode and not self.all_hashable(keyterm):
+                # hash-based containers raise TypeError on the first unhashable key
+                kx = th.fresh('kx', th.I)
+                s_bad = s.fork().add(kx >= 0, kx < gg.n, self.gen_at(gg, keep, kx), z3.Not(th.hashable(self.gen_at(gg, keyterm, kx))))
+                s.add(z3.ForAll([i], z3.Implies(z3.And(rng, keep), th.hashable(keyterm))))
+                bad = [self.raise_('TypeError', s_bad, f'{target}-build:{self.src(node)[:40]}:unhashable')]
+            else:
+                bad = []
             if target == 'set':
                 has = z3.Lambda([kk], z3.Exists([i], z3.And(rng, keep, gg.val == kk)))
-                return [(VSetB(has), s)]
+                return [(VSetB(has), s)] + bad
             if target == 'dict':
                 kv, vv = gg.val
                 has = z3.Lambda([kk], z3.Exists([i], z3.And(rng, keep, kv == kk)))
@@ -631,7 +674,7 @@ class Calls:
                                                         self.gen_at(gg, kv, wit(kq)) == kq))))
                 s.add(z3.ForAll([kq, j], z3.Implies(z3.And(j > wit(kq), j < gg.n, self.gen_at(gg, keep, j)),
                                                     self.gen_at(gg, kv, j) != kq)))
-                return [(VMapB(has, get), s)]
+                return [(VMapB(has, get), s)] + bad
             raise OutOfSubset('materialize ' + target, node)
         return self.bind(self.consume(g, st), k)
 
